@@ -49,6 +49,8 @@ func FileHandler(path string) (AuthenticationHandler, error) {
 	defer fd.Close()
 	reader := csv.NewReader(fd)
 	reader.Comma = ':'
+	// lines with and without a mount point may be mixed
+	reader.FieldsPerRecord = -1
 	records, err := reader.ReadAll()
 	if err != nil {
 		return nil, err
